@@ -136,7 +136,8 @@ def preRegion (s : Stashed) : Bool :=
 
 /-- region in which `revert(j)` = prefix state is claimed: not tainted and, for a bundle built by one `State`, the
 hypothesis `Spec.Bundle.revertOk` of `Props.C17.revert_j_equals_prefix_partial` (outside findings F2a / F2b); for
-extended bundles (no theorem, finding F5) destroy-freeness or `Spec.Bundle.extRevertOk` -/
+`extend(a, b)` the hypothesis `Spec.Bundle.extRevertOk` of `Props.C18.extend_revert_partial` (outside finding F5), or
+destroy-freeness (no theorem) -/
 def revertRegion (s : Stashed) (j : Nat) : Bool :=
   !s.taint && revertOk s.b j &&
   (!s.ext || destroyFree s.b || (match s.parts with | some (a, b) => extRevertOk a b j | none => false))
